@@ -15,12 +15,16 @@ ID = "C08"
 TITLE = ("DenovoMCMC.fit / CallingMCMC.fit / PedigreeCallingMCMC.fit: on every path the numpy and the numba generator are seeded with random_seed before any RNG-consuming call, all chains/samples run after that single seeding, and the result is a function of (inputs, seed) only; "
          "program.run_stdout with n cores: for every interleaving of writer / workers / main, header first, every locus exactly once as one intact line, exit status non-zero iff a locus fails")
 TECHNIQUE = ('symbolic execution of the fit() drivers with the random generators as explicit state (seeded-before-first-draw on every path); assumption guard on RNG sources; '
-             'bounded model checking of the real multi-core driver under contract stubs of multiprocessing with solver-chosen schedules and failing locus (every interleaving in the bound), witnesses replayed with real multiprocessing')
+             'bounded model checking of the real multi-core driver under contract stubs of multiprocessing with solver-chosen schedules and failing locus (every interleaving in the bound), witnesses replayed with real multiprocessing; Python-level summaries and argument parsing re-executed under sets whose iteration order is a bounded solver variable (hash randomisation), witnesses replayed in fresh interpreters with different PYTHONHASHSEED')
 ENCODED = ["mchap.application.baseclass.program.run_stdout", "mchap.application.baseclass.program._run_stdout_multi_core", "mchap.application.baseclass.program._run_stdout_single_core",
            "mchap.application.baseclass.program._worker", "mchap.application.baseclass.program._writer", "mchap.application.baseclass.program._assemble_loci_wrapped",
            "mchap.application.baseclass.program._locus_data", "mchap.application.arguments.parse_report_fields",
            "mchap.assemble.mcmc.DenovoMCMC.fit", "mchap.assemble.mcmc.DenovoMCMC._mcmc", "mchap.calling.classes.CallingMCMC.fit", "mchap.pedigree.classes.PedigreeCallingMCMC.fit",
-           "mchap.application.call.program.call_sample_genotypes", "mchap.application.assemble.program.call_sample_genotypes"]
+           "mchap.application.call.program.call_sample_genotypes", "mchap.application.assemble.program.call_sample_genotypes",
+           "mchap.calling.classes.GenotypeAllelesMultiTrace.posterior", "mchap.calling.classes.PosteriorGenotypeAllelesDistribution.mode", "mchap.calling.classes.PosteriorGenotypeAllelesDistribution.as_array",
+           "mchap.calling.classes.GenotypeAllelesMultiTrace.posterior_frequencies", "mchap.calling.classes.GenotypeAllelesMultiTrace.replicate_incongruence",
+           "mchap.assemble.classes.GenotypeMultiTrace.posterior", "mchap.assemble.classes.PosteriorGenotypeDistribution.mode_genotype_support", "mchap.assemble.classes.PosteriorGenotypeDistribution.allele_frequencies",
+           "mchap.application.arguments.parse_sample_pools", "mchap.application.arguments.parse_pedigree_arguments"]
 STUBS = ["np.random.seed and mchap.jitutils.seed_numba -> recorders of (generator, seed)",
          "every RNG-consuming callee (_denovo_assembler, sample_snv_alleles, calling/pedigree mcmc_sampler, greedy_caller is deterministic) -> recorder returning a value that is an uninterpreted function of (its arguments, generator states); generator state after seeding = S(seed)",
          "the RNG state before fit() and the results of earlier fits are symbolic (arbitrary history)",
@@ -31,7 +35,7 @@ ASSUMES = ["numba's and numpy's generators are deterministic functions of their 
            "the record of a locus is a function of (locus, inputs, seed) -- that is the seeding core above -- so the multi-core group uses opaque record lines"]
 BOUNDS = {"quick": "assemble: 0 or 2 reads, sites all fixed / some / none (symbolic homozygosity probabilities and threshold), initial genotype given or sampled, 1-2 chains, 1-2 temperatures; call: with/without variants, initial given or greedy; pedigree: initial given or greedy; application loops: 2 samples; "
                    "multi-core: (loci, cores) in {(1,1),(2,1),(1,2),(2,2),(3,2)}, failing locus in {none, each locus}, ALL schedules; "
-                   "state-leak: each of the four programs processes a 3-sample locus twice (program attributes and module-level containers compared), --report parsing four times",
+                   "state-leak: each of the four programs processes a 3-sample locus twice (program attributes and module-level containers compared), --report parsing four times; hash-order: every 2x2-step call trace over 6 diploid genotypes and assemble trace over 4, --report subsets/rotations of 5 names, 48 pool files, 24 pedigree files, every iteration order of sets of up to 3 elements (6 representative orders beyond)",
           "thorough": "same fit() space (small, fully explored); multi-core: adds (4,2),(2,3),(3,3),(4,3),(5,2),(5,3)"}
 OUTSIDE = ("the OS / CPython implementation of multiprocessing (processes, pickling, pipes, signals) is replaced by its documented contract; more loci / cores than the bound; "
            "iteration over the targets file by pysam (locus order/subsets are covered only through 'a record depends on its locus and the seed alone'); header date/command lines; "
@@ -67,6 +71,14 @@ def configs(tier):
     for prog in wiring.PROGS:
         out.append(dict(group="state-leak", prog=prog, order=0, twice=True))
     out.append(dict(group="state-leak", prog="report-fields"))
+    # the Python-level summaries and argument parsing under sets whose iteration order is a solver variable (str / bytes hashing is
+    # randomised per process): a record must not depend on it
+    for g0 in range(6):
+        out.append(dict(group="hash-order", target="call-trace", first=g0))
+    for g0 in range(4):
+        out.append(dict(group="hash-order", target="asm-trace", first=g0))
+    for t in ("report-fields", "sample-pools", "pedigree-args"):
+        out.append(dict(group="hash-order", target=t))
     return out
 
 
@@ -574,6 +586,165 @@ def _run_state_leak(c, col):
             col.ok("parse_report_fields returns fresh lists: module-level DEFAULT_FIELDS unchanged, results independent of earlier calls and of edits to earlier results")
 
 
+# ------------------------------------------------------------------ set iteration order (hash randomisation)
+HASH_REPORT = ["AFP", "GP", "INFO/ACP", "AOPSUM", "FORMAT/AOP"]
+
+
+def _jsonable(x):
+    if isinstance(x, dict):
+        return {str(k): _jsonable(v) for k, v in x.items()}
+    if isinstance(x, (list, tuple)):
+        return [_jsonable(v) for v in x]
+    if isinstance(x, (set, frozenset)):
+        return sorted(_jsonable(v) for v in x)
+    if isinstance(x, rnp.ndarray):
+        return _jsonable(x.tolist())
+    if isinstance(x, (rnp.integer,)):
+        return int(x)
+    if isinstance(x, (float, rnp.floating)):
+        return repr(float(x))
+    if hasattr(x, "id") and not isinstance(x, (str, bytes)):
+        return getattr(x, "id")
+    return x
+
+
+def _hash_drive(load, target, payload):
+    """the operation whose result must be a function of `payload` alone (shared by the symbolic run under solver-ordered sets
+    and by the replay in fresh interpreters with different PYTHONHASHSEED)"""
+    import tempfile
+    from checks import c14
+
+    if target == "call-trace":
+        cc = load("mchap.calling.classes")
+        g = rnp.array(payload["trace"], dtype=rnp.int8).reshape(2, 2, 2)
+        r = c14._drive_call(cc, g, 0, 0, 3)
+        return _jsonable({k: r[k] for k in ("post_g", "post_p", "mode", "mode_s", "arr", "freqs", "inc")})
+    if target == "asm-trace":
+        ac = load("mchap.assemble.classes")
+        g = rnp.array(payload["trace"], dtype=rnp.int8).reshape(2, 2, 2, 1)
+        r = c14._drive_asm(ac, g, 0, 0)
+        return _jsonable({k: r[k] for k in ("post_g", "post_p", "sup_g", "sup_p", "mode", "af", "afd", "inc")})
+    args = load("mchap.application.arguments")
+    if target == "report-fields":
+        info, fmt = args.parse_report_fields(payload["report"])
+        return _jsonable(dict(info=[f.id for f in info], format=[f.id for f in fmt]))
+    tmp = tempfile.mkdtemp(prefix="mchap-c08-")
+    try:
+        if target == "sample-pools":
+            path = os.path.join(tmp, "pools.txt")
+            open(path, "w").write("".join("%s\t%s\n" % (s_, p_) for s_, p_ in payload["lines"]))
+            samples = ["a", "b", "c"]
+            pools, pool_bams = args.parse_sample_pools(list(samples), {s_: s_ + ".bam" for s_ in samples}, path)
+            return _jsonable(dict(pools=list(pools), bams={k: [list(x) for x in v] for k, v in pool_bams.items()}, order=list(pool_bams)))
+        if target == "pedigree-args":
+            path = os.path.join(tmp, "ped.txt")
+            open(path, "w").write("".join("%s\t%s\t%s\n" % tuple(r) for r in payload["lines"]))
+            samples = ["a", "b"]
+            d = args.parse_pedigree_arguments(samples=list(samples), sample_bams={s_: s_ + ".bam" for s_ in samples}, ploidy_argument="2", sample_parents_argument=path,
+                                              gamete_ploidy_argument=None, gamete_ibd_argument="0.0", gamete_error_argument="0.0")
+            return _jsonable({k: (list(v) if isinstance(v, list) else {kk: vv for kk, vv in v.items()}) for k, v in d.items()} | {"key-order": {k: list(v) for k, v in d.items() if isinstance(v, dict)}})
+    finally:
+        import shutil
+
+        shutil.rmtree(tmp, ignore_errors=True)
+    raise ValueError(target)
+
+
+def _hash_payload(c, choice):
+    t = c["target"]
+    if t == "call-trace":
+        genos = [(0, 0), (0, 1), (0, 2), (1, 1), (1, 2), (2, 2)]
+        idx = [c["first"]] + [choice("t%d" % k, 0, 5) for k in (1, 2, 3)]
+        return dict(trace=[list(genos[i]) for i in idx])
+    if t == "asm-trace":
+        genos = [(0, 0), (0, 1), (1, 0), (1, 1)]
+        idx = [c["first"]] + [choice("t%d" % k, 0, 3) for k in (1, 2, 3)]
+        return dict(trace=[list(genos[i]) for i in idx])
+    if t == "report-fields":
+        mask, rot = choice("mask", 0, 2 ** len(HASH_REPORT) - 1), choice("rot", 0, len(HASH_REPORT) - 1)
+        opts = HASH_REPORT[rot:] + HASH_REPORT[:rot]
+        return dict(report=[o for i, o in enumerate(opts) if mask >> i & 1])
+    if t == "sample-pools":
+        perm = list(itertools.permutations(["a", "b", "c"]))[choice("perm", 0, 5)]
+        mask = choice("pool", 0, 7)
+        return dict(lines=[[s_, "p%d" % (mask >> i & 1)] for i, s_ in enumerate(perm)])
+    if t == "pedigree-args":
+        rows = [["c", "a", "b"], ["d", "c", "."], ["a", ".", "."], ["e", "d", "a"]]
+        perm = list(itertools.permutations(range(4)))[choice("perm", 0, 23)]
+        return dict(lines=[rows[i] for i in perm])
+    raise ValueError(t)
+
+
+def _run_hash_order(c, col):
+    import json
+
+    E.cfg.nd_sets = True
+    E.cfg.concrete_floats = True
+    try:
+        E.reset_modules()
+        site = {"call-trace": "mchap.calling.classes.PosteriorGenotypeAllelesDistribution", "asm-trace": "mchap.assemble.classes.PosteriorGenotypeDistribution"}.get(c["target"], "mchap.application.arguments")
+        seen = {}
+
+        def body(ctx):
+            payload = _hash_payload(c, lambda name, lo, hi: int(E.SymInt(E.fresh_int(ctx, name, lo, hi))))
+            return payload, _hash_drive(E.load, c["target"], payload)
+
+        first = True
+        for pr in E.explore(body, stats=col.stats):
+            if pr.exc is not None:
+                col.fail(site, "exception", shape=dict(target=c["target"]), witness=dict(exc=repr(pr.exc)), desc="raised %r" % (pr.exc,))
+                continue
+            col.path()
+            if first:
+                col.reachable(pr.ctx)
+                first = False
+            payload, out = pr.value
+            key = json.dumps(payload, sort_keys=True)
+            txt = json.dumps(out, sort_keys=True)
+            orders = [e for e in pr.ctx.events if e.get("kind") == "set-iteration"]
+            if key not in seen:
+                seen[key] = (txt, orders)
+                col.ok("first result for these inputs recorded (%s)" % c["target"])
+            elif seen[key][0] != txt:
+                col.fail(site, "set-order-dependence", shape=dict(target=c["target"]), witness=dict(target=c["target"], payload=payload, result_a=json.loads(seen[key][0]), orders_a=seen[key][1][:3], result_b=out, orders_b=orders[:3]),
+                         desc="the result for the same inputs depends on the iteration order of a set (hash randomisation): %s" % _first_diff(json.loads(seen[key][0]), out))
+            else:
+                col.ok("same inputs, another iteration order of the sets involved: identical result (%s)" % c["target"])
+    finally:
+        E.cfg.nd_sets = False
+        E.cfg.concrete_floats = False
+        E.reset_modules()
+
+
+def _first_diff(a, b):
+    if isinstance(a, dict) and isinstance(b, dict):
+        for k in a:
+            if a.get(k) != b.get(k):
+                return "%s: %s" % (k, _first_diff(a.get(k), b.get(k)))
+    return "%s vs %s" % (str(a)[:120], str(b)[:120])
+
+
+def _replay_hash_order(v):
+    """fresh interpreters with different hash seeds run the same operation on the REAL modules"""
+    import json
+    import subprocess
+    import sys as _sys
+
+    w = v.get("witness") or {}
+    root = os.path.dirname(os.path.dirname(os.path.abspath(__file__)))
+    outs = {}
+    for hs in range(12):
+        env = dict(os.environ, PYTHONHASHSEED=str(hs), PYTHONPATH=os.pathsep.join([E.repo_root(), root]))
+        p = subprocess.run([_sys.executable, "-W", "ignore", "-m", "checks.c08_hash_real", w["target"], json.dumps(w["payload"])], capture_output=True, text=True, timeout=600, env=env, cwd=root)
+        if p.returncode != 0:
+            return False, "real run failed: %s" % p.stderr[-300:]
+        outs.setdefault(p.stdout.strip().splitlines()[-1], []).append(hs)
+    if len(outs) > 1:
+        (a, ha), (b, hb) = list(outs.items())[:2]
+        return True, "real modules, %s on %s: PYTHONHASHSEED=%s and =%s give different results: %s" % (w["target"], json.dumps(w["payload"])[:120], ha[0], hb[0], _first_diff(json.loads(a), json.loads(b)))
+    return False, "real modules: identical result under 12 hash seeds"
+
+
 def _model_of(ctx):
     ctx.isolver.check()
     return ctx.isolver.model()
@@ -619,6 +790,8 @@ def replay(v):
         from checks import wiring
 
         return wiring.replay_real(v, _run_state_leak)
+    if g == "hash-order":
+        return _replay_hash_order(v)
     if g == "rng-sources":
         g = "assemble"
     rs = v["config"].get("seed", 11)
